@@ -1083,7 +1083,7 @@ namespace Dune
       auto& U=A;
 
       // initialize inverse
-      *this=field_type();
+      *this=field_type(0);
 
       for(size_type i=0; i<rows(); ++i)
         (*this)[i][i]=1;
